@@ -397,6 +397,34 @@ pub fn run(out: &mut Out, thorough: bool, seed: u64) {
         }
     }
     // 3. the public field types
+    fn tables<F>(out: &mut Out, name: &str, _p: u128)
+    where
+        F: FieldElementWithInteger + prio::field::NttFriendlyFieldElement,
+        F::Integer: TryFrom<u128> + Into<u128> + Copy,
+    {
+        // `root(l)`: the table has entries for l = 0..=20 and nothing beyond; root(l)^(2^l) = 1 and not before
+        for l in 0usize..=70 {
+            let r = crate::util::catch(std::panic::AssertUnwindSafe(|| F::root(l)));
+            let ok = match (&r, l <= 20) {
+                (Ok(Some(w)), true) => {
+                    let mut x = *w;
+                    let mut order_ok = true;
+                    for _ in 0..l {
+                        order_ok &= x != F::one() || l == 0;
+                        x = x * x;
+                    }
+                    order_ok && x == F::one()
+                }
+                (Ok(None), false) => true,
+                _ => false,
+            };
+            out.oracle(ok, || format!("{}::root({})", name, l), || match &r { Ok(Some(_)) => "a root beyond the table, or of the wrong order".to_string(), Ok(None) => "no root although the table has one".to_string(), Err(_) => "panic".to_string() });
+        }
+        out.count("tables");
+    }
+    tables::<FieldPrio2>(out, "FP32", FIELDS[2].p);
+    tables::<Field64>(out, "FP64", FIELDS[3].p);
+    tables::<Field128>(out, "FP128", FIELDS[4].p);
     let n = if thorough { 20_000 } else { 2_000 };
     public_api::<FieldPrio2>(out, "FP32", FIELDS[2].p, &mut rng, &lattice(&FIELDS[2]), n);
     public_api::<Field64>(out, "FP64", FIELDS[3].p, &mut rng, &lattice(&FIELDS[3]), n);
